@@ -704,6 +704,34 @@ func (h *harness) fullHistoryCase(hist fullHistory, family string) {
 					return
 				}
 			}
+			if prune && len(candRets) > 0 {
+				// the start that completed the pruner ran with candRets[last]; if that configuration
+				// gives another cutoff than the one the database is pruned to, a dead run's prune
+				// (block data pruned, reverse lookups wiped) was taken over by a run that decided
+				// differently: known root cause, every divergence below belongs to it
+				last := candRets[len(candRets)-1]
+				if floor := oldestRetained(cur); hist.Spec.oldestKept(last) != floor {
+					tmp := lib.NewResult("")
+					saved := h.res
+					h.res = tmp
+					ok1 := h.checkFullFinal(hist, cur, prune, headState, btImgs, effRet)
+					h.res = saved
+					tw := realFullStart(d0, hist.Spec, fullStart{HeadState: headState, Prune: prune, Retained: int(effRet)})
+					same := tw.result == "ok"
+					if same {
+						same, _ = sameDumpModuloEmpty(hist.Spec.Chain, dump(cur), dump(tw.after))
+					}
+					if !ok1 || !same {
+						res.Hit("oracle:historyprunner-restart-with-other-retention-abandons-started-prune")
+						res.Violate(lib.Violation{Sig: "historyprunner-restart-with-other-retention-abandons-started-prune",
+							What: fmt.Sprintf("a run with retainedBlocks giving cutoff %d died after committing its prune and the wipe of the reverse lookups; the restart "+
+								"(retainedBlocks %d: cutoff %d / nothing to prune) does not finish that work and the migration is recorded as applied: "+
+								"lookups / history differ from an undisturbed upgrade", floor, last, hist.Spec.oldestKept(last)),
+							Replay: hist})
+						return
+					}
+				}
+			}
 			good := h.checkFullFinal(hist, cur, prune, headState, btImgs, effRet)
 			md, err := migration.GetSchemaMetadata(cur)
 			_, tgt := fullRegistry(prune, headState, 4, func(_ int, m migration.Migration) migration.Migration { return m })
@@ -1245,6 +1273,8 @@ func (h *harness) pruneBoundaryFamilies() {
 		h.fullHistoryCase(fullHistory{Spec: pr, Starts: []fullStart{{Prune: true, HeadState: true, Inflate: true, CancelAt: 30 + k}, {Prune: true, HeadState: true, Retained: 9}}}, "prune-retained-changed-after-cancel")
 		h.fullHistoryCase(fullHistory{Spec: pr, Starts: []fullStart{{Prune: true, HeadState: true, Inflate: true, CrashAt: 30 + k}, {Prune: true, HeadState: true, Retained: 9}}}, "prune-retained-changed-after-crash")
 		h.fullHistoryCase(fullHistory{Spec: pr, Starts: []fullStart{{Prune: true, HeadState: true, Inflate: true, FailAt: 30 + k}}}, "prune-writefail")
+		// … and with a retention above the pivot ("nothing to prune") after a dead run
+		h.fullHistoryCase(fullHistory{Spec: pr, Starts: []fullStart{{Prune: true, HeadState: true, Inflate: true, CrashAt: 30 + k}, {Prune: true, HeadState: true, Retained: 19}}}, "prune-retained-above-pivot-after-crash")
 	}
 }
 
@@ -1411,7 +1441,7 @@ func (h *harness) pruneCutoffGrid() {
 		}
 	}
 	for _, upto := range []uint64{3, 14} {
-		for _, ret := range []int{2, 4, 9, 15} {
+		for _, ret := range []int{2, 4, 9, 15, 19} {
 			fs := fullSpec{Chain: dense(20), Prunable: true}
 			d, err := mkPruned(fs, upto)
 			if err != nil {
